@@ -267,6 +267,8 @@ def norm(t, pol=True):
                 # constant on the right
                 if const(l) is not None and const(r) is None:
                     t = _mkbin("==", r, l)
+                elif const(l) is None and const(r) is None and key(r) < key(l):
+                    t = _mkbin("==", r, l)      # canonical operand order: `a == b` and `b == a` are one atom
                 return t, pol
             if op == ">=":
                 return _mkbin("<", l, r), (not pol)
